@@ -622,18 +622,23 @@ func (r Registry[R, T]) LinkMessage(
 	// functions return errors - e.g. by closing the connection
 	setErr := func(err error) {
 		verifYield("seterr.enter", verifErrString(err))
+		// Store the error before closing the response resolver, and only if it is the first one:
+		// closing makes in-flight and new calls fail, and those follow-up errors end up here, too
+		verifYield("seterr.lock", verifErrString(err))
+		fatalErrLock.L.Lock()
+		verifTrace("seterr.store", verifErrString(err))
+		if fatalErr == nil {
+			fatalErr = err
+		}
+		fatalErrLock.Broadcast()
+		fatalErrLock.L.Unlock()
+
+		verifYield("seterr.close", verifErrString(err))
 		if err == nil {
 			responseResolver.Close(context.Canceled)
 		} else {
 			responseResolver.Close(err)
 		}
-
-		verifYield("seterr.lock", verifErrString(err))
-		fatalErrLock.L.Lock()
-		verifTrace("seterr.store", verifErrString(err))
-		fatalErr = err
-		fatalErrLock.Broadcast()
-		fatalErrLock.L.Unlock()
 	}
 
 	// The user is responsible for cancelling the context after LinkMessage has returned,
